@@ -19,7 +19,7 @@ from checks.routing_ref import lit, var
 ID = "C12"
 LEVEL = "exploration"
 RULE = (
-    "maps over a 61-rule universe: 28 general rules (C03 shapes, per-rule strict_slashes/merge_slashes, non-ASCII "
+    "maps over a 69-rule universe (incl. alias rules with extra defaults of their own and websocket rules next to HTTP rules, every map also asked by a WebSocket client for its first configuration - mixed maps for every configuration): 28 general rules (C03 shapes, per-rule strict_slashes/merge_slashes, non-ASCII "
     "literal, method sets) in all subsets of size 1-2 (3 over a reduced set); three canonicalisation groups - "
     "endpoint d (two defaults rules, converter rule as leaf/branch, alias rules with and without their own "
     "defaults, equal to / different from the canonical rule's), endpoint g (rules with DIFFERENT argument sets: "
@@ -40,7 +40,7 @@ RULE = (
     "form) matched and, if it redirected, checked and followed (n_chains); non-trivial = distinct ones that redirected. "
     "Construction histories: for maps of >= 2 rules, every insertion order x every split point (Map(rules[:k]), one "
     "match, Map.add() of the others with a match in between) must give the first-binding outcomes of the map built "
-    "in one go (quick: strict_slashes and merge_slashes on, redirect_defaults on; thorough: every slash configuration)."
+    "in one go (quick: strict_slashes and merge_slashes on, redirect_defaults on; thorough: the two configurations strict == merge)."
 )
 ASSUMPTIONS = [
     "redirect_to targets are outside the claim (not generated)",
@@ -137,6 +137,17 @@ def _groups():
         "IT1": S((lit("archive"), var("int", "id")), False, defaults={"archived": True}, endpoint="it"),
         "NI0": S((lit("ni"), var("int", "id")), False, defaults={"flag": None}, endpoint="ni"),
         "NI1": S((lit("nj"), var("int", "id")), False, defaults={"flag": 1}, endpoint="ni"),
+        # an alias with MORE arguments than its canonical rule: an extra default of its own (the documented
+        # '/index.html' next to '/' shape)
+        "IX0": S((lit("ix"),), True, endpoint="ix"),
+        "IXA": S((lit("ix"), lit("index.html")), False, defaults={"legacy": True}, endpoint="ix", alias=True),
+        "IXB": S((lit("ix"), lit("old")), True, defaults={"legacy": True, "v": 0}, endpoint="ix", alias=True),
+        "ALX": S((lit("alx"), var("int")), False, defaults={"legacy": True}, endpoint="d", alias=True),
+        # websocket rules next to HTTP rules (cross-protocol requests must not be redirected to them)
+        "WSB": S((lit("chat"),), True, websocket=True, endpoint="wsb"),
+        "WSL": S((lit("chat"),), False, endpoint="wsl"),
+        "WSV": S((lit("room"), var("string", "s")), True, websocket=True, endpoint="wsv"),
+        "HTB": S((lit("room"), var("string", "s"), lit("ws")), True, endpoint="htb"),
     }
     return d
 
@@ -145,11 +156,12 @@ GROUPS = _groups()
 U = GENERAL + list(GROUPS.values())
 ID = {name: NG + i for i, name in enumerate(GROUPS)}
 D0, D1, D1B, AL, ALB = (ID[n] for n in ("D0", "D1", "D1B", "AL", "ALB"))
-DG = [ID[n] for n in ("D0", "D1", "D1B", "AL", "ALB", "D0B", "ALD99", "ALD1")]
+DG = [ID[n] for n in ("D0", "D1", "D1B", "AL", "ALB", "D0B", "ALD99", "ALD1", "ALX")]
 GG = [ID[n] for n in ("G0", "G1", "G2", "G3", "G4", "G5", "GA")]
 WG = [ID[n] for n in ("W0", "W1", "WA", "W2", "W3", "W4")]
 SG = [[ID[a], ID[b]] for a, b in (("Z0", "Z1"), ("ZF0", "ZF1"), ("ZS0", "ZS1"), ("ZD0", "ZD1"), ("IT0", "IT1"),
-                                  ("NI0", "NI1"))]
+                                  ("NI0", "NI1"), ("IX0", "IXA"), ("IX0", "IXB"), ("WSB", "WSL"), ("WSV", "HTB"),
+                                  ("WSB", "WSV"))]
 
 
 def _ustr(sp):
@@ -174,18 +186,40 @@ def eff_endpoint(sp):
 
 
 def can_express(canon, alias) -> bool:
-    """canon (not an alias) can stand for every (endpoint, arguments) the alias rule can produce."""
-    if canon["alias"] or eff_endpoint(canon) != eff_endpoint(alias) or arguments(canon) != arguments(alias):
+    """Alias canonicalisation is well defined: canon (not an alias, same endpoint) is buildable from what the
+    alias rule produces.  Every argument of canon is an argument of the alias; whatever the alias has in addition
+    is a default of its own (never a URL variable - that information would be lost); and where canon fixes a value
+    by a default, the alias fixes the same value."""
+    if canon["alias"] or eff_endpoint(canon) != eff_endpoint(alias):
         return False
+    ca, aa = arguments(canon), arguments(alias)
     ad = dict(alias["defaults"] or ())
+    if not ca <= aa or not (aa - ca) <= set(ad):
+        return False
     return all(k in ad and ad[k] == v for k, v in (canon["defaults"] or ()))
+
+
+def compatible(r, alias) -> bool:
+    """A non-alias rule r of the alias's endpoint never takes the alias's request somewhere else: either r can
+    never be chosen for what the alias produces (it has a URL variable the alias lacks, or it fixes by default a
+    value the alias fixes differently), or whatever r is chosen for it denotes the same arguments (r's arguments
+    are the alias's, minus defaults of the alias's own)."""
+    if r["alias"] or eff_endpoint(r) != eff_endpoint(alias):
+        return True
+    ra, aa = arguments(r), arguments(alias)
+    ad, rd = dict(alias["defaults"] or ()), dict(r["defaults"] or ())
+    if any(s[0] == "var" and s[3] not in aa for s in r["segs"]):
+        return True
+    if any(k in ad and ad[k] != v for k, v in rd.items()):
+        return True
+    return ra <= aa and (aa - ra) <= set(ad)
 
 
 def valid(combo) -> bool:
     sps = [U[i] for i in combo]
     for a in sps:
-        if a["alias"] and not any(can_express(c, a) for c in sps):
-            return False                     # an alias needs a canonical twin that can express its arguments
+        if a["alias"] and not (any(can_express(c, a) for c in sps) and all(compatible(r, a) for r in sps)):
+            return False                     # alias canonicalisation has to be well defined (see can_express)
     s = set(combo)
     if D1 in s and D1B in s:
         return False                         # the same pattern as leaf and branch under one endpoint: ambiguous build
@@ -253,6 +287,7 @@ BINDINGS = [
     ("https", "example.com", "/", "www", "defsub"),     # Map(default_subdomain="www"), bind(subdomain=None)
     ("https", "example.com:8080", "/app", "sub", "env"),  # bind_to_environ: host, script, path, query from a WSGI environ
 ]
+WS_PLAIN = ("ws", "example.com", "/", "", "wsplain")   # a WebSocket request to the map as declared (mixed protocols)
 MAP_KW = {"host": {"host_matching": True}, "defsub": {"default_subdomain": "www"}}
 MAP_OF = {"env": "sub"}            # the environ binding uses the map of the "sub" variant
 QUERIES = [None, "x=1&y=é", {"x": "a b"}, MultiDict([("k", "1"), ("k", "2"), ("e", "")])]
@@ -423,7 +458,8 @@ def check_map(combo, R, tier):
     any_methods = any(sp["methods"] is not None for sp in base)
     methods = ("GET", "POST") if any_methods else ("GET",)
     # websocket binding: not for POST rules (werkzeug refuses them)
-    ws_ok = not any(sp["methods"] and "POST" in sp["methods"] for sp in base)
+    # (and not for maps that mix protocols themselves: turning every rule into a websocket rule changes them)
+    ws_ok = not any((sp["methods"] and "POST" in sp["methods"]) or sp["websocket"] for sp in base)
     paths = rr.path_set(base, EXTRA, lean=True)
     seenp = set(paths)
     for h in HOSTILE:
@@ -445,6 +481,8 @@ def check_map(combo, R, tier):
     rot = 0
     nconf = 0
     is_group = any(i >= NG for i in combo)
+    has_ws = any(sp["websocket"] for sp in base)
+    wsplain_first = True
     for strict, merge in ((True, True), (False, False), (True, False), (False, True)):
         if is_group and k >= 3 and strict != merge and tier == "quick":
             continue       # quick: canonicalisation groups of 3 rules under (strict, merge) = (on, on) and (off, off) only
@@ -463,8 +501,8 @@ def check_map(combo, R, tier):
                     return bind(ads[v], bi, qi, path, method)
 
                 cfg = (names, tuple(order), strict, merge, rd)
-                full = first_combo or (tier == "thorough" and (k <= 2 or (is_group and k <= 3)))
-                do_hist = k >= 2 and ((strict and merge and (k == 2 or is_group)) if tier == "quick" else True) and rd
+                full = first_combo or (tier == "thorough" and (k <= 2 or (is_group and k <= 3 and strict == merge)))
+                do_hist = k >= 2 and ((strict and merge and (k == 2 or is_group)) if tier == "quick" else strict == merge) and rd
                 first_combo = False
                 ad0 = adapter(0, 0)
                 redirecting = []
@@ -483,6 +521,31 @@ def check_map(combo, R, tier):
                                         {"kind": "chain", "rules": base, "order": list(order), "strict": strict,
                                          "merge": merge, "rd": rd, "binding": BINDINGS[0], "path": p,
                                          "method": method, "query": None, "problems": ["exception"], "fd": False})
+                if has_ws or wsplain_first:
+                    # cross-protocol: the same rules asked by a WebSocket client.  A redirect must lead to a rule
+                    # of the request's protocol (HTTP rules are not eligible for it, and the other way round)
+                    wsplain_first = False
+                    adw = ads["plain"].bind(WS_PLAIN[1], script_name=WS_PLAIN[2], url_scheme="ws")
+                    R.use("wsplain-sweep")
+                    for p in paths:
+                        for method in methods:
+                            first = step(adw, p, method, None)
+                            R.count("matches")
+                            R.ev()
+                            if first[0] != "redir":
+                                continue
+                            pn = rr.normalise_path(p)
+                            accw = ref.acceptable_results(pn, method, websocket=True)
+                            problems, chain = check_chain(adw, WS_PLAIN, p, method, None, first, accw)
+                            R.count("chains")
+                            R.use("wsplain-redirect")
+                            R.nontrivial((cfg, "wsplain", p, method))
+                            if problems:
+                                R.violation("redirect:" + "+".join(sorted(set(problems))),
+                                            {"kind": "chain", "rules": base, "order": list(order), "strict": strict,
+                                             "merge": merge, "rd": rd, "binding": WS_PLAIN, "path": p, "method": method,
+                                             "query": None, "problems": problems, "first_url": first[1],
+                                             "chain": chain, "fd": False})
                 if do_hist:
                     # construction histories: Map(rules[:split]), one match, Map.add() of the others one by one
                     # (a match after each) - must behave like the map built in one go
@@ -523,13 +586,17 @@ def check_map(combo, R, tier):
                         qs = [c for c in COMBOS if c[0] == bi_other]
                         todo = [COMBOS[0], qs[rot % len(qs)]]
                     pn = rr.normalise_path(p)
-                    acc = acc_cache.get((pn, method))
-                    if acc is None:
-                        acc = acc_cache[(pn, method)] = ref.acceptable_results(pn, method)
+                    acc_http = acc_cache.get((pn, method))
+                    if acc_http is None:
+                        # HTTP request: websocket rules are not eligible (None = the map has none, flag irrelevant)
+                        acc_http = acc_cache[(pn, method)] = ref.acceptable_results(pn, method, False if has_ws else None)
+                        acc_cache[(pn, method, "ws")] = ref.acceptable_results(pn, method, None)
+                    acc_all = acc_cache[(pn, method, "ws")]
                     for bi, qi in todo:
                         if BINDINGS[bi][4] == "ws" and not ws_ok:
                             continue
                         b, q = BINDINGS[bi], QUERIES[qi]
+                        acc = acc_all if b[4] == "ws" else acc_http     # variant "ws": every rule is a websocket rule
                         if b[4] == "env":
                             ad = adapter(bi, qi, p, method)      # path, method and query come from the environ
                             first = step(ad, None, None, None)
@@ -589,7 +656,7 @@ def run_unit(unit, R, tier):
 
 def finalize(R, tier):
     need = ({"hop:slash", "hop:merge", "hop:canonical", "chain-len:1", "chain-len:2", "hostile-redirected",
-             "first:match", "first:redir", "first:NotFound", "first:MethodNotAllowed", "q-via-match", "q-via-bind", "history"}
+             "first:match", "first:redir", "first:NotFound", "first:MethodNotAllowed", "q-via-match", "q-via-bind", "history", "wsplain-sweep", "wsplain-redirect"}
             | {"q:" + n for n in ("none", "str", "dict", "MultiDict")}
             | {"binding:%d" % i for i in range(len(BINDINGS))}
             | {"rule:%d" % i for i in range(N)})
@@ -639,12 +706,18 @@ def replay(rec):
     q = rec["query"]
     if isinstance(q, (list, tuple)):
         q = MultiDict([tuple(x) for x in q])
-    v = MAP_OF.get(b[4], b[4])
+    v = MAP_OF.get(b[4], b[4]) if b[4] != "wsplain" else "plain"
     m = build_map(variant(specs, v), order, rec["strict"], rec["merge"], rec["rd"], **MAP_KW.get(v, {}))
     qi = next((i for i, x in enumerate(QUERIES) if repr(x) == repr(q)), 0)
     bi = next((i for i, x in enumerate(BINDINGS) if tuple(x) == b), 0)
     vm = via_match(bi, qi)
-    ad = bind(m, bi, qi, rec["path"], rec["method"])
+    has_ws = any(sp["websocket"] for sp in specs)
+    wsflag = None if b[4] == "ws" else (True if b[4] == "wsplain" else (False if has_ws else None))
+    if b[4] == "wsplain":
+        m = build_map(specs, order, rec["strict"], rec["merge"], rec["rd"])
+        ad = m.bind(b[1], script_name=b[2], url_scheme="ws")
+    else:
+        ad = bind(m, bi, qi, rec["path"], rec["method"])
     ref = rr.RefMap(specs, rec["strict"], rec["merge"])
     pn = rr.normalise_path(rec["path"])
     if b[4] == "env":
@@ -665,9 +738,10 @@ def replay(rec):
     if first[0] != "redir":
         bad = "depends-on-binding" in rec["problems"] or "exception" in rec["problems"]
         return bad and first[0] in ("exc", "http", "match"), head + f"first = {first}"
-    problems, chain = check_chain(ad, b, rec["path"], rec["method"], q, first, ref.acceptable_results(pn, rec["method"]))
+    accr = ref.acceptable_results(pn, rec["method"], wsflag)
+    problems, chain = check_chain(ad, b, rec["path"], rec["method"], q, first, accr)
     text = head + (f"first redirect = {first[1]}\nhops = {chain[0]} visited = {chain[2]} end = {chain[1]}\n"
-                   f"acceptable end results = {sorted(ref.acceptable_results(pn, rec['method']))}\nproblems = {problems}")
+                   f"acceptable end results = {sorted(accr)}\nproblems = {problems}")
     return bool(problems), text
 
 
